@@ -17,7 +17,7 @@ import math
 
 from ..cfg import CFG, node_expr, stmt_defs
 from ..facts import must_facts
-from ..model import Program, call_name, norm
+from ..model import Program, call_name, norm, expand_locals
 from ..poly import Rat, eval_expr
 from ..report import AnalysisError
 
@@ -317,7 +317,18 @@ def _remainder_nonneg(r, k, f, n_warm):
             continue
         arms = []
         for arm in (n.body, n.orelse):
-            d = {norm(s.targets[0]): s.value for s in arm if isinstance(s, ast.Assign) and len(s.targets) == 1}
+            # names assigned in the arm, with temporaries of the arm substituted (also through tuple
+            # assignments, e.g. when the derivation was moved into a helper and inlined back)
+            d = {}
+            for s in arm:
+                if isinstance(s, ast.Assign) and len(s.targets) == 1:
+                    t = s.targets[0]
+                    if isinstance(t, ast.Tuple) and isinstance(s.value, ast.Tuple) and len(t.elts) == len(s.value.elts):
+                        vals = [expand_locals(v, d) for v in s.value.elts]
+                        for x, v in zip(t.elts, vals):
+                            d[norm(x)] = v
+                    else:
+                        d[norm(t)] = expand_locals(s.value, {k2: v2 for k2, v2 in d.items() if k2 != norm(t)})
             arms.append(d)
         if not all(stage_len_names <= set(a) for a in arms):
             continue
